@@ -24,6 +24,7 @@ inductive Kind where
   | stringResultAlloc                    -- `const std::string &f()` / `*f()`, allocatable
   | stringValResultAlloc                 -- `std::string f()` (by value: a heap copy owned by the capsule), allocatable
   | vecStrIn | vecStrOut | vecStrInout   -- `std::vector<std::string> &` from / into `character(len=L) :: a(n)`
+  | structArg                            -- a struct by value, pointer or reference (language c++: cast to the C++ struct)
   deriving Repr, DecidableEq
 
 /-- the eight statements that describe a heap `std::vector` in the context struct -/
@@ -130,6 +131,7 @@ def Kind.cpaths : Kind → Bool → List (List Nat)
   | .vecStrInout, false => [[1, 14, 32, 42, 50, 13]]
   | .charResultAlloc, true | .stringResultAlloc, true | .stringValResultAlloc, true
   | .vecStrIn, true | .vecStrOut, true | .vecStrInout, true => []
+  | .structArg, _ => []   -- language dependent block: theorem struct_entry
   | .nativeOutAlloc, true | .vectorIn, true | .vectorOut, true | .vectorOutAlloc, true | .vectorInout, true
   | .vectorInoutAlloc, true | .vectorResult, true | .vectorResultAlloc, true | .ptrPtrOut, true
   | .resultPointer, true | .resultAlloc, true | .charArrayIn, true => []
@@ -169,6 +171,7 @@ def Kind.fpaths : Kind → List (List Nat)
   | .stringValResultAlloc => [[2, 13, 30, 43, 50, 60]]
   | .vecStrIn => [[2, 14, 32, 40, 50, 13]]
   | .vecStrOut | .vecStrInout => []
+  | .structArg => [[2, 16, 30, 40], [2, 16, 31, 40], [2, 16, 32, 40], [2, 16, 31, 42], [2, 16, 32, 42]]
   | .native => [[2, 10, 30, 40], [2, 10, 31, 40], [2, 10, 31, 41], [2, 10, 31, 42], [2, 10, 32, 40], [2, 10, 32, 41],
                 [2, 10, 32, 42], [2, 10, 30, 40, 50], [2, 10, 31, 40, 50], [2, 10, 31, 41, 50], [2, 10, 31, 42, 50]]
 
@@ -177,7 +180,7 @@ def allKinds : List Kind :=
    .charResult, .stringResult, .charScalarResult, .native,
    .nativeOutAlloc, .vectorIn, .vectorOut, .vectorOutAlloc, .vectorInout, .vectorInoutAlloc, .vectorResult,
    .vectorResultAlloc, .ptrPtrOut, .resultPointer, .resultAlloc, .charArrayIn,
-   .charResultAlloc, .stringResultAlloc, .stringValResultAlloc, .vecStrIn, .vecStrOut, .vecStrInout]
+   .charResultAlloc, .stringResultAlloc, .stringValResultAlloc, .vecStrIn, .vecStrOut, .vecStrInout, .structArg]
 
 /-- one kind is an instance of its documented shape in the table of language `cxx` -/
 def kindOK (cxx : Bool) (k : Kind) : Bool :=
@@ -1188,6 +1191,60 @@ theorem assumed_rank_variants (lo hi r : Nat) : r ∈ assumedRanks lo hi ↔ lo 
   · intro h; exact ⟨r - lo, by omega, by omega⟩
 
 example : assumedRanks 0 2 = [0, 1, 2] := by decide
+
+/-! ### interface attributes that license optimisations; struct arguments -/
+
+/-- **PURE only when licensed**: the bind(C) interface gets the PURE prefix only for a function that is
+    declared `+pure`, or is a const member function all of whose arguments are intent(in) - never for a
+    non-const function without `+pure` (a Fortran compiler may merge or drop calls to a PURE function) -/
+theorem pure_only_when_licensed (d : IfaceD) (h : interfacePure d = true) :
+    d.isFunction = true ∧ d.resultShadow = false ∧ d.resultCtx = false ∧
+    (d.pureAttr = true ∨ (d.funcConst = true ∧ ∀ i ∈ d.intents, i = 40)) := by
+  simp only [interfacePure, Bool.and_eq_true, Bool.not_eq_true', Bool.or_eq_true, List.all_eq_true, beq_iff_eq] at h
+  obtain ⟨⟨⟨h1, h2⟩, h3⟩, h4⟩ := h
+  exact ⟨h3, h1, h2, h4⟩
+
+theorem not_pure_without_licence (d : IfaceD) (h1 : d.pureAttr = false) (h2 : d.funcConst = false) :
+    interfacePure d = false := by
+  simp [interfacePure, h1, h2]
+
+example : interfacePure ⟨true, false, false, false, false, [40, 40]⟩ = false ∧
+    interfacePure ⟨true, false, true, false, false, [40, 40]⟩ = true ∧
+    interfacePure ⟨true, false, true, false, false, [40, 41]⟩ = false := by decide
+
+/-- **C-side dereference fields**: the address-of operator is applied to the wrapper's parameter
+    exactly when that parameter is the object itself (a by-value declaration without a pointer local);
+    a pointer AND a reference both arrive as a pointer and are used as they are -/
+theorem c_addr_iff_by_value (localVar : Nat) (ind : Bool) :
+    (computeCDeref localVar ind).2.2 = true ↔ (localVar = 1 ∨ (localVar ≠ 2 ∧ ind = false)) := by
+  unfold computeCDeref
+  by_cases h1 : localVar = 1
+  · simp [h1]
+  · by_cases h2 : localVar = 2
+    · simp [h2]
+    · cases ind <;> simp [h1, h2]
+
+/-- struct arguments (language c++): block `c_struct` for every indirection and intent, with a pointer local -/
+theorem struct_entry :
+    ([[1, 16, 30, 40], [1, 16, 31, 40], [1, 16, 32, 40], [1, 16, 31, 42], [1, 16, 32, 42], [1, 16, 31, 41], [1, 16, 32, 41, 50]].all fun p =>
+      cAt true p == ⟨[], 2, false, [.structCast 6 1], []⟩ && cAt false p == ⟨[], 0, false, [], []⟩) = true := by
+  decide +kernel
+
+/-- **struct by value, by pointer and by reference** (C++ library): with `c_addr` as `compute_c_deref`
+    gives it for the declaration, the library receives the caller's struct and - through a pointer or a
+    reference - the caller holds what the library left in it -/
+theorem struct_pass_through (fields : List Int) (lib : Val → Val) (ind : Bool) :
+    runArgWith [(15, .int (if (computeCDeref 0 ind).2.2 then 1 else 0)), (16, .int (if ind then 1 else 0))]
+        ⟨false, [], []⟩ ⟨[], 2, false, [.structCast 6 1], []⟩ ind (.stru fields) (.arg lib)
+      = .ok ⟨some (.stru fields), if ind then lib (.stru fields) else .stru fields, 0⟩ := by
+  cases ind <;> run_simp [computeCDeref, List.foldl]
+
+/-- the seeded class of defect as a model fact: `&` applied to a pointer parameter hands the library
+    the pointer's own bytes - undefined in the model, for every struct -/
+theorem struct_addr_of_pointer_undefined (fields : List Int) (lib : Val → Val) :
+    runArgWith [(15, .int 1), (16, .int 1)] ⟨false, [], []⟩ ⟨[], 2, false, [.structCast 6 1], []⟩ true (.stru fields) (.arg lib)
+      = .oob := by
+  run_simp [List.foldl]
 
 /-! ## non-vacuity: concrete instances of the hypotheses used above -/
 
